@@ -226,8 +226,62 @@ struct Step {
     /// how the client builds the request: 0 = flags in the message given to
     /// RequestMessage::new; 1 = flags set afterwards through header_mut();
     /// 2 = as 1, plus set_udp_payload_size and add_opt (an OPT record is
-    /// present even when DO is clear)
+    /// present even when DO is clear); >= M_CONS = a request construction
+    /// (see `Cons`): which additional section the base message has, by which
+    /// route the flags get into the request, and which transport the
+    /// upstream stands for
     mode: u8,
+}
+
+/// Request construction (modes >= M_CONS). `f` of the step is then only a
+/// PARAMETER of the construction; the flags the request effectively carries
+/// are read by the harness from the octets a transport would send.
+const M_CONS: u8 = 3;
+const N_ADD: u8 = 7;
+const N_ROUTE: u8 = 5;
+const N_STYLE: u8 = 3;
+/// additional section of the base message handed to RequestMessage::new
+const ADDS: [&str; N_ADD as usize] = [
+    "no additional section",
+    "own OPT record with DO=0",
+    "own OPT record with DO=1",
+    "one A record in the additional section",
+    "one A record, then an own OPT record with DO=0",
+    "one A record, then an own OPT record with DO=1",
+    "own OPT record with DO=1, then one A record",
+];
+/// how RD/CD/AD/DO of the step's `f` get into the request
+const ROUTES: [&str; N_ROUTE as usize] = [
+    "RD/CD/AD in the base message's header, no setter called (DO only through the base message's own OPT record)",
+    "RD/CD/AD via header_mut() over a clear base header, set_dnssec_ok(true) iff DO",
+    "RD/CD/AD in the base header AND the same via header_mut(), set_dnssec_ok(true) iff DO",
+    "RD/CD/AD via header_mut() over a clear base header, set_dnssec_ok(DO) always called",
+    "base header carries the complementary RD/CD/AD, header_mut() overrides them, set_dnssec_ok(DO) always called",
+];
+/// what the transport the upstream stands for does with a request before
+/// it is sent (dgram.rs / stream.rs)
+const STYLES: [&str; N_STYLE as usize] = [
+    "dgram: header_mut().set_id, set_udp_payload_size(1232), to_message()",
+    "dgram without payload size: header_mut().set_id, to_message()",
+    "stream: header_mut().set_id, append_message() into a builder",
+];
+#[derive(Clone, Copy, Debug)]
+struct Cons {
+    style: u8,
+    add: u8,
+    route: u8,
+}
+fn cons_of(mode: u8) -> Option<Cons> {
+    if mode < M_CONS {
+        return None;
+    }
+    let m = mode - M_CONS;
+    let c = Cons { style: m / (N_ADD * N_ROUTE), add: (m / N_ROUTE) % N_ADD, route: m % N_ROUTE };
+    assert!(c.style < N_STYLE, "mode out of range");
+    Some(c)
+}
+fn cons_mode(style: u8, add: u8, route: u8) -> u8 {
+    M_CONS + style * N_ADD * N_ROUTE + add * N_ROUTE + route
 }
 
 fn step_json(s: &Step) -> Value {
@@ -243,14 +297,14 @@ fn flags_text(f: u8) -> String {
     )
 }
 fn step_text(s: &Step) -> String {
-    format!(
-        "+{}ms {} [{}]{} upstream-would-answer={}",
-        s.adv_ms,
-        q_text(s.q),
-        flags_text(s.f),
-        ["", " (flags via header_mut)", " (flags via header_mut, OPT via set_udp_payload_size+add_opt)"][s.mode as usize],
-        KINDS[s.ans as usize]
-    )
+    let how = match cons_of(s.mode) {
+        None => ["", " (flags via header_mut)", " (flags via header_mut, OPT via set_udp_payload_size+add_opt)"][s.mode as usize].to_string(),
+        Some(c) => format!(
+            " (construction parameters, not necessarily the effective flags; base message: {}; route: {}; upstream transport: {})",
+            ADDS[c.add as usize], ROUTES[c.route as usize], STYLES[c.style as usize]
+        ),
+    };
+    format!("+{}ms {} [{}]{} upstream-would-answer={}", s.adv_ms, q_text(s.q), flags_text(s.f), how, KINDS[s.ans as usize])
 }
 
 // ---------------------------------------------------------------- own wire writer
@@ -543,7 +597,129 @@ fn build_message(id: u16, flags: u16, qs: &[(&[u8], u16, u16)], secs: &[Vec<Rec>
 
 /// Builds the client's request; Err if the ComposeRequest accessors do not
 /// read back what was set.
+fn h_bits(f3: u8) -> u16 {
+    let mut flags = 0;
+    if f3 & RD != 0 {
+        flags |= H_RD;
+    }
+    if f3 & AD != 0 {
+        flags |= H_AD;
+    }
+    if f3 & CD != 0 {
+        flags |= H_CD;
+    }
+    flags
+}
+
+/// A base message with one of the ADDS additional sections.
+fn build_base(id: u16, flags: u16, qs: &[(&[u8], u16, u16)], add: u8) -> Vec<u8> {
+    let mut v = build_message(id, flags, qs, &[vec![], vec![], vec![]], None);
+    let rec = |v: &mut Vec<u8>| {
+        v.extend_from_slice(b"\x01x\x02ex\x00");
+        v.extend_from_slice(&T_A.to_be_bytes());
+        v.extend_from_slice(&1u16.to_be_bytes());
+        v.extend_from_slice(&60u32.to_be_bytes());
+        v.extend_from_slice(&4u16.to_be_bytes());
+        v.extend_from_slice(&[192, 0, 2, 99]);
+    };
+    let opt = |v: &mut Vec<u8>, d: bool| {
+        v.push(0);
+        v.extend_from_slice(&T_OPT.to_be_bytes());
+        v.extend_from_slice(&4096u16.to_be_bytes());
+        v.extend_from_slice(&(if d { 0x8000u32 } else { 0 }).to_be_bytes());
+        v.extend_from_slice(&0u16.to_be_bytes());
+    };
+    let n: u16 = match add {
+        0 => 0,
+        1 | 2 => {
+            opt(&mut v, add == 2);
+            1
+        }
+        3 => {
+            rec(&mut v);
+            1
+        }
+        4 | 5 => {
+            rec(&mut v);
+            opt(&mut v, add == 5);
+            2
+        }
+        6 => {
+            opt(&mut v, true);
+            rec(&mut v);
+            2
+        }
+        _ => unreachable!(),
+    };
+    v[10..12].copy_from_slice(&n.to_be_bytes());
+    v
+}
+
+/// Builds a request along one construction. Nothing is read back here: what
+/// the request effectively asks is read from the octets a transport sends.
+fn build_request_cons(q: u8, f: u8, step: usize, c: Cons) -> Result<RequestMessage<Vec<u8>>, String> {
+    let form = &FORMS[q as usize];
+    let f3 = f & (RD | CD | AD);
+    let base_f3 = match c.route {
+        0 | 2 => f3,
+        1 | 3 => 0,
+        _ => !f3 & (RD | CD | AD),
+    };
+    let bytes = build_base(0x1000 + step as u16, ((form.opcode as u16) << 11) | h_bits(base_f3), form.qs, c.add);
+    let msg = Message::from_octets(bytes).expect("harness request is a message");
+    let mut req = RequestMessage::new(msg).map_err(|e| format!("RequestMessage::new refused {}: {e:?}", form.text))?;
+    if c.route != 0 {
+        let h = req.header_mut();
+        h.set_rd(f & RD != 0);
+        h.set_ad(f & AD != 0);
+        h.set_cd(f & CD != 0);
+        if f & DO != 0 || c.route >= 3 {
+            req.set_dnssec_ok(f & DO != 0);
+        }
+    }
+    Ok(req)
+}
+
+/// The octets a transport of the given style puts on the wire for `req`
+/// (dgram.rs: set_random_id, set_udp_payload_size, to_message; stream.rs:
+/// set_id, append_message). The transport's ID differs from the caller's.
+fn transport_wire(req: &RequestMessage<Vec<u8>>, style: u8) -> Result<Vec<u8>, String> {
+    let mut r = req.clone();
+    let id = r.header().id() ^ 0x5A5A;
+    r.header_mut().set_id(id);
+    match style {
+        0 => {
+            r.set_udp_payload_size(1232);
+            r.to_message().map(|m| m.as_slice().to_vec()).map_err(|e| format!("to_message failed: {e:?}"))
+        }
+        1 => r.to_message().map(|m| m.as_slice().to_vec()).map_err(|e| format!("to_message failed: {e:?}")),
+        _ => r.append_message(Vec::new()).map(|b| b.finish()).map_err(|e| format!("append_message failed: {e:?}")),
+    }
+}
+
+/// RD/CD/AD/DO as the harness's own reader finds them in a message (the
+/// whole additional section is scanned for the OPT record).
+fn wire_flags(p: &PMsg) -> u8 {
+    let mut f = 0u8;
+    if p.flags & H_RD != 0 {
+        f |= RD;
+    }
+    if p.flags & H_CD != 0 {
+        f |= CD;
+    }
+    if p.flags & H_AD != 0 {
+        f |= AD;
+    }
+    if p.opt_do == Some(true) {
+        f |= DO;
+    }
+    f
+}
+
 fn build_request(q: u8, f: u8, step: usize, mode: u8) -> Result<RequestMessage<Vec<u8>>, String> {
+    if let Some(c) = cons_of(mode) {
+        return build_request_cons(q, f, step, c);
+    }
     let form = &FORMS[q as usize];
     let mut flags = (form.opcode as u16) << 11;
     if mode == 0 {
@@ -607,6 +783,10 @@ struct PMsg {
     qclass: u16,
     recs: Vec<CRec>, // sorted, OPT excluded
     opt_do: Option<bool>,
+    /// number of OPT records, and whether an OPT record is preceded by
+    /// another record of the additional section
+    n_opt: usize,
+    opt_not_first: bool,
 }
 
 fn lower_wire(labels: &[Vec<u8>]) -> Vec<u8> {
@@ -667,10 +847,13 @@ fn parse(bytes: &[u8]) -> Result<PMsg, String> {
     }
     let mut recs = Vec::new();
     let mut opt_do = None;
+    let (mut n_opt, mut opt_not_first) = (0usize, false);
     for s in 0..3 {
-        for r in &raw.sections[s] {
+        for (i, r) in raw.sections[s].iter().enumerate() {
             if r.rtype == T_OPT {
                 opt_do = Some(r.ttl & 0x8000 != 0);
+                n_opt += 1;
+                opt_not_first |= s == 2 && i > 0;
                 continue;
             }
             recs.push(CRec {
@@ -689,7 +872,7 @@ fn parse(bytes: &[u8]) -> Result<PMsg, String> {
         None => (0, 0),
     };
     let questions = raw.questions.iter().map(|q| (lower_wire(&q.qname), q.qtype, q.qclass)).collect();
-    Ok(PMsg { flags: raw.flags, questions, qtype, qclass, recs, opt_do })
+    Ok(PMsg { flags: raw.flags, questions, qtype, qclass, recs, opt_do, n_opt, opt_not_first })
 }
 
 // ---------------------------------------------------------------- scripted upstream
@@ -698,7 +881,10 @@ struct LogEntry {
     step: usize,
     t_ms: u64,
     ident: Ident,
+    /// the flags the upstream found in the octets it received
     f: u8,
+    /// the request had its OPT record behind another additional record
+    opt_not_first: bool,
     kind: u8,
     /// what the upstream returned: parsed message, or the error's Debug text
     res: Result<PMsg, String>,
@@ -707,6 +893,9 @@ struct LogEntry {
 
 struct Shared {
     kind: u8,
+    /// Some(style): the upstream is a transport of that style; None: the
+    /// request is serialised as it is handed over
+    style: Option<u8>,
     step: usize,
     now_ms: u64,
     log: Vec<LogEntry>,
@@ -730,10 +919,15 @@ impl GetResponse for Scripted {
 impl SendRequest<RequestMessage<Vec<u8>>> for Upstream {
     fn send_request(&self, req: RequestMessage<Vec<u8>>) -> Box<dyn GetResponse + Send + Sync> {
         let mut sh = self.0.lock().unwrap();
-        let bytes = match req.to_vec() {
+        // what the upstream "receives" are the octets a transport sends
+        let sent = match sh.style {
+            None => req.to_vec().map_err(|e| format!("{e:?}")),
+            Some(s) => transport_wire(&req, s),
+        };
+        let bytes = match sent {
             Ok(b) => b,
             Err(e) => {
-                sh.bad = Some(format!("forwarded request does not compose: {e:?}"));
+                sh.bad = Some(format!("forwarded request does not compose: {e}"));
                 return Box::new(Scripted(Err(Error::FormError)));
             }
         };
@@ -744,13 +938,37 @@ impl SendRequest<RequestMessage<Vec<u8>>> for Upstream {
                 return Box::new(Scripted(Err(Error::FormError)));
             }
         };
-        // the serialisation a real transport uses must say the same
-        match req.append_message(Vec::new()).map(|b| b.finish()) {
-            Ok(alt) => match parse(&alt) {
-                Ok(a) if a.flags == p.flags && a.questions == p.questions && a.opt_do == p.opt_do && a.recs == p.recs => {}
-                other => sh.bad = Some(format!("append_message and to_vec disagree: {:?} vs {:?}", other.map(|a| (a.flags, a.questions, a.opt_do)), (p.flags, &p.questions, p.opt_do))),
-            },
-            Err(e) => sh.bad = Some(format!("forwarded request: append_message failed: {e:?}")),
+        if p.n_opt > 1 {
+            sh.bad = Some(format!("forwarded request carries {} OPT records (RFC 6891 6.1.1: at most one)", p.n_opt));
+        }
+        match sh.style {
+            None => {
+                // the serialisation a real transport uses must say the same
+                match req.append_message(Vec::new()).map(|b| b.finish()) {
+                    Ok(alt) => match parse(&alt) {
+                        Ok(a) if a.flags == p.flags && a.questions == p.questions && a.opt_do == p.opt_do && a.recs == p.recs => {}
+                        other => sh.bad = Some(format!("append_message and to_vec disagree: {:?} vs {:?}", other.map(|a| (a.flags, a.questions, a.opt_do)), (p.flags, &p.questions, p.opt_do))),
+                    },
+                    Err(e) => sh.bad = Some(format!("forwarded request: append_message failed: {e:?}")),
+                }
+            }
+            Some(s) => {
+                // whichever transport carries the request, the upstream must be asked the same
+                for s2 in (0..N_STYLE).filter(|s2| *s2 != s) {
+                    match transport_wire(&req, s2).and_then(|b| parse(&b)) {
+                        Ok(a) if a.flags == p.flags && a.questions == p.questions && wire_flags(&a) == wire_flags(&p) && a.recs == p.recs => {}
+                        other => {
+                            sh.bad = Some(format!(
+                                "transports disagree on what is sent for one request: [{}] sends {:?}, [{}] sends {:?}",
+                                STYLES[s2 as usize],
+                                other.map(|a| (a.flags, a.questions, a.opt_do)),
+                                STYLES[s as usize],
+                                (p.flags, &p.questions, p.opt_do)
+                            ))
+                        }
+                    }
+                }
+            }
         }
         let raw = read_message(&bytes).unwrap();
         let qwires: Vec<(Vec<u8>, u16, u16)> = raw.questions.iter().map(|q| (mc::wire::to_wire(&q.qname), q.qtype, q.qclass)).collect();
@@ -760,19 +978,7 @@ impl SendRequest<RequestMessage<Vec<u8>>> for Upstream {
             Some((n, t, _)) => (n.clone(), *t),
             None => (A_LC.to_vec(), T_A),
         };
-        let mut f = 0u8;
-        if p.flags & H_RD != 0 {
-            f |= RD;
-        }
-        if p.flags & H_CD != 0 {
-            f |= CD;
-        }
-        if p.flags & H_AD != 0 {
-            f |= AD;
-        }
-        if p.opt_do == Some(true) {
-            f |= DO;
-        }
+        let f = wire_flags(&p);
         let m = sh.step as u8 + 1;
         let kind = sh.kind;
         let (res, logged, rawout) = match render(kind, &qname_wire, qtype0, f, m) {
@@ -791,7 +997,7 @@ impl SendRequest<RequestMessage<Vec<u8>>> for Upstream {
         };
         let (step, t_ms) = (sh.step, sh.now_ms);
         let ident: Ident = (((p.flags >> 11) & 0xF) as u8, p.questions.clone());
-        sh.log.push(LogEntry { step, t_ms, ident, f, kind, res: logged, raw: rawout });
+        sh.log.push(LogEntry { step, t_ms, ident, f, opt_not_first: p.opt_not_first, kind, res: logged, raw: rawout });
         Box::new(Scripted(res))
     }
 }
@@ -802,6 +1008,9 @@ struct StepObs {
     forwarded: bool,
     res: Result<Vec<u8>, String>,
     t_ms: u64,
+    /// for request constructions: the flags this request carries on the
+    /// wire, read by the harness from what a transport would send for it
+    eff_f: Option<u8>,
 }
 
 struct Run {
@@ -817,7 +1026,7 @@ fn run_history(cfg_i: usize, steps: &[Step]) -> Result<Run, String> {
             .start_paused(true)
             .build()
             .expect("runtime");
-        let shared = Arc::new(Mutex::new(Shared { kind: 0, step: 0, now_ms: 0, log: Vec::new(), bad: None }));
+        let shared = Arc::new(Mutex::new(Shared { kind: 0, style: None, step: 0, now_ms: 0, log: Vec::new(), bad: None }));
         let sh2 = shared.clone();
         let obs = rt.block_on(async move {
             if CFGS[cfg_i].setup == Setup::New {
@@ -849,6 +1058,7 @@ async fn drive<C: SendRequest<RequestMessage<Vec<u8>>>>(conn: &C, steps: &[Step]
                 let before = {
                     let mut s = sh2.lock().unwrap();
                     s.kind = st.ans;
+                    s.style = cons_of(st.mode).map(|c| c.style);
                     s.step = i;
                     s.now_ms = now;
                     s.log.len()
@@ -857,9 +1067,20 @@ async fn drive<C: SendRequest<RequestMessage<Vec<u8>>>>(conn: &C, steps: &[Step]
                     Ok(r) => r,
                     Err(e) => {
                         sh2.lock().unwrap().bad = Some(e.clone());
-                        obs.push(StepObs { forwarded: true, res: Err(e), t_ms: now });
+                        obs.push(StepObs { forwarded: true, res: Err(e), t_ms: now, eff_f: None });
                         continue;
                     }
+                };
+                let eff_f = match cons_of(st.mode) {
+                    None => None,
+                    Some(c) => match transport_wire(&req, c.style).and_then(|b| parse(&b)) {
+                        Ok(p) => Some(wire_flags(&p)),
+                        Err(e) => {
+                            sh2.lock().unwrap().bad = Some(format!("request does not serialise: {e}"));
+                            obs.push(StepObs { forwarded: true, res: Err(e), t_ms: now, eff_f: None });
+                            continue;
+                        }
+                    },
                 };
                 let mut pending = conn.send_request(req);
                 let res = pending.get_response().await;
@@ -872,6 +1093,7 @@ async fn drive<C: SendRequest<RequestMessage<Vec<u8>>>>(conn: &C, steps: &[Step]
                         Err(e) => Err(format!("{e:?}")),
                     },
                     t_ms: now,
+                    eff_f,
                 });
             }
             obs
@@ -1144,7 +1366,7 @@ fn judge_step(cfg: &Cfg, steps: &[Step], run: &Run, i: usize) -> Verdict {
         Err(e) => Err(e.clone()),
     };
     let ident = form_ident(steps[i].q);
-    let p = Probe { ident: &ident, qtype: ident.1.first().map(|q| q.1).unwrap_or(0), f: steps[i].f, now_ms: o.t_ms };
+    let p = Probe { ident: &ident, qtype: ident.1.first().map(|q| q.1).unwrap_or(0), f: o.eff_f.unwrap_or(steps[i].f), now_ms: o.t_ms };
     let mut best: Option<Fail> = None;
     for e in run.log.iter().filter(|e| e.step < i) {
         match check_candidate(cfg, e, &p, &served) {
@@ -1187,6 +1409,12 @@ struct Local {
     nx_nosoa_served: u64,
     evict_forward_seen: bool,
     evict_hit_seen: bool,
+    /// request constructions: requests whose wire flags differ from the
+    /// construction parameters; whose base OPT said DO=1 while the wire says
+    /// DO=0; upstream saw DO=1 in an OPT record behind another record
+    cons_eff_differs: u64,
+    cons_base_do_absent_on_wire: u64,
+    cons_do_behind_record: u64,
     outcomes: HashMap<u32, u64>,
     served_by_kind: KindCounts,
     by_adv: BTreeMap<u64, (u64, u64)>,
@@ -1207,6 +1435,9 @@ impl Local {
         self.nx_nosoa_served += o.nx_nosoa_served;
         self.evict_forward_seen |= o.evict_forward_seen;
         self.evict_hit_seen |= o.evict_hit_seen;
+        self.cons_eff_differs += o.cons_eff_differs;
+        self.cons_base_do_absent_on_wire += o.cons_base_do_absent_on_wire;
+        self.cons_do_behind_record += o.cons_do_behind_record;
         for (k, v) in o.outcomes {
             *self.outcomes.entry(k).or_insert(0) += v;
         }
@@ -1285,6 +1516,21 @@ fn eval_history(ctx: &Ctx, shape: &'static str, cfg_i: usize, steps: &[Step], lo
     // of that configuration are kept out of the reproducible figures.
     let counted = cfg.setup != Setup::OneEntry;
     let mut any_served = false;
+    for (i, st) in steps.iter().enumerate() {
+        if let Some(c) = cons_of(st.mode) {
+            if run.log.iter().any(|e| e.step == i && e.f & DO != 0 && e.opt_not_first) {
+                loc.cons_do_behind_record += 1;
+            }
+            if let Some(ef) = run.obs[i].eff_f {
+                if ef != st.f {
+                    loc.cons_eff_differs += 1;
+                }
+                if [2, 5, 6].contains(&c.add) && ef & DO == 0 {
+                    loc.cons_base_do_absent_on_wire += 1;
+                }
+            }
+        }
+    }
     for i in 0..steps.len() {
         let v = judge_step(cfg, steps, &run, i);
         if !counted {
@@ -1301,6 +1547,9 @@ fn eval_history(ctx: &Ctx, shape: &'static str, cfg_i: usize, steps: &[Step], lo
         if verbose {
             let o = &run.obs[i];
             println!("  step {i}: {}", step_text(&steps[i]));
+            if let Some(ef) = o.eff_f {
+                println!("    on the wire this request carries [{}]", flags_text(ef));
+            }
             println!(
                 "    t={} ms  {}  -> {}",
                 o.t_ms,
@@ -1605,6 +1854,56 @@ fn main() {
         global.lock().unwrap().merge(loc);
     });
 
+    // ---- shape 8: how the request was built x which transport carries it.
+    //      Base message handed to RequestMessage::new {no additional section,
+    //      own OPT DO=0/DO=1, an A record in the additional section, both in
+    //      either order} x route of the flags {base message only and no
+    //      setter, setters over a clear base header, both, set_dnssec_ok
+    //      called with false as well, setters overriding a contradicting base
+    //      header} x transport {dgram, dgram without payload size, stream}.
+    //      The scripted upstream answers what it finds in the octets such a
+    //      transport sends (own reader, whole additional section scanned for
+    //      OPT); the flags a later request "asks with" are read from its own
+    //      transport octets the same way. The oracle is the one of every
+    //      other shape, over these wire-level flags.
+    let adds8: Vec<u8> = (0..N_ADD).collect();
+    let routes8: Vec<u8> = if quick { vec![0, 1, 2, 3] } else { (0..N_ROUTE).collect() };
+    // the CD partition is orthogonal to everything here: thorough only
+    let f3s8: Vec<u8> = (0..8u8).filter(|f| !quick || f & CD == 0).collect();
+    let kinds8: Vec<u8> = if quick { vec![16, 19] } else { vec![16, 19, 26] };
+    let adv8: Vec<u64> = if quick { vec![1000] } else { vec![1000, 5000] };
+    // (add, route, f): route 0 calls no setter, so DO is no parameter of it
+    let cons8: Vec<(u8, u8, u8)> = adds8
+        .iter()
+        .flat_map(|&a| {
+            let f3s8 = &f3s8;
+            routes8.iter().flat_map(move |&r| {
+                f3s8.iter().flat_map(move |&f3| (0..2u8).filter(move |d| r != 0 || *d == 0).map(move |d| (a, r, f3 | if d == 1 { DO } else { 0 })))
+            })
+        })
+        .collect();
+    let items: Vec<(u8, (u8, u8, u8), u8)> = (0..N_STYLE)
+        .flat_map(|st| {
+            let kinds8 = &kinds8;
+            cons8.iter().flat_map(move |c| kinds8.iter().map(move |&k| (st, *c, k)))
+        })
+        .collect();
+    items.par_iter().for_each(|&(style, (a, r, f), ans)| {
+        let fill = Step { adv_ms: 0, q: 0, f, ans, mode: cons_mode(style, a, r) };
+        wd.enter(|| json!({"shape": "request-construction", "fill": step_json(&fill)}));
+        let mut loc = Local::default();
+        loc.nodes += 1;
+        for &(a2, r2, f2) in &cons8 {
+            for &adv in &adv8 {
+                loc.nodes += 1;
+                let h = [fill, Step { adv_ms: adv, q: 0, f: f2, ans: K_PROBE, mode: cons_mode(style, a2, r2) }];
+                eval_history(&ctx, "request-construction", 0, &h, &mut loc, false);
+            }
+        }
+        wd.leave();
+        global.lock().unwrap().merge(loc);
+    });
+
     // ---- shape 7: a cache of ONE entry (set_max_cache_entries(0), minimum 1
     //      applies). fill a.ex, fill b.ex, then 40 rounds of (probe a.ex,
     //      probe b.ex): moka applies its size policy after 64 logged reads,
@@ -1647,6 +1946,9 @@ fn main() {
         (0, vec![Step { adv_ms: 0, q: 5, f: RD, ans: 0, mode: 0 }, Step { adv_ms: 1000, q: 5, f: RD, ans: 0, mode: 0 }]),
         (CFG_HUGE, vec![Step { adv_ms: 0, q: 0, f: RD, ans: 35, mode: 1 }, Step { adv_ms: 86_401_000, q: 0, f: RD, ans: 0, mode: 2 }]),
     ];
+    // a forwarded query (own OPT DO=1 in the base message, nothing set) then a DO query; DO behind an additional record then a plain query
+    sample_hist.push((0, vec![Step { adv_ms: 0, q: 0, f: RD, ans: 16, mode: cons_mode(2, 2, 0) }, Step { adv_ms: 1000, q: 0, f: RD | DO, ans: 0, mode: cons_mode(2, 0, 1) }]));
+    sample_hist.push((0, vec![Step { adv_ms: 0, q: 0, f: RD | DO, ans: 16, mode: cons_mode(0, 3, 1) }, Step { adv_ms: 1000, q: 0, f: RD, ans: 0, mode: cons_mode(0, 0, 0) }]));
     if !quick {
         sample_hist.push((0, vec![Step { adv_ms: 0, q: 0, f: RD | DO, ans: 18, mode: 0 }, Step { adv_ms: 5000, q: 0, f: RD, ans: 1, mode: 0 }, Step { adv_ms: 0, q: 0, f: 0, ans: 0, mode: 0 }, Step { adv_ms: 10000, q: 0, f: AD, ans: 0, mode: 0 }]));
     }
@@ -1667,12 +1969,19 @@ fn main() {
                 })
                 .collect(),
         };
-        stats.sample(16, || json!({"cfg": cfg.name, "history": h.iter().map(step_text).collect::<Vec<_>>(), "observed": outcome}));
+        stats.sample(20, || json!({"cfg": cfg.name, "history": h.iter().map(step_text).collect::<Vec<_>>(), "observed": outcome}));
     }
 
     let g = global.into_inner().unwrap();
     if g.served == 0 {
         ctx.violation("C20|machinery|vacuous", "no probe at all was served from the cache", json!({}));
+    }
+    if g.by_shape.get("request-construction").is_none_or(|v| v.1 == 0) || g.cons_do_behind_record == 0 {
+        ctx.violation(
+            "C20|machinery|vacuous",
+            "shape request-construction: nothing was served from the cache, or the upstream never saw DO=1 in an OPT record behind another additional record",
+            json!({}),
+        );
     }
     let mut outcomes: BTreeMap<String, u64> = BTreeMap::new();
     for (k, v) in &g.outcomes {
@@ -1692,8 +2001,8 @@ fn main() {
             "distinct_nontrivial": g.nontrivial,
             "rule": "histories are pairwise distinct by construction (odometer over the product of the menus of each shape, per configuration); non-trivial = at least one step was answered without consulting the upstream (served from cache). states = nodes of the per-shape history trees (a node is the cache reached by one history prefix under one configuration; prefixes shared between shapes are counted once per shape); transitions = requests executed on the real cache::Connection",
             "exhaustive": true,
-            "bound_completed": format!("{}: fill·probe (({} configs x {} fills + config default+cache_truncated x the TC fills = {} (config, fill) pairs) x {} advances x 16 flags), fill·probe·probe ({} configs x {} fills x {} advances x 16 flags x {} advances x 16 flags), fill·cross-probe ({} configs x {} fills in all 8 request forms x the other forms, and the form itself for the 4 pass-through forms, x {} advances x 16 flags), config-limits (zero-requested and huge-requested, see menus.config_limits), request-representation (default config, a.ex/A, 3 answers x 16 x 16 flags x 8 mode pairs x 2 advances), one-entry-eviction (768 histories of 82 requests){}",
-                if quick { "quick" } else { "thorough" }, cfgs1.len(), fills1.len(), n_items1, adv1.len(), cfgs2.len(), fills2.len(), adv2a.len(), adv2.len(), cfgs3.len(), fills3.len(), adv3.len(),
+            "bound_completed": format!("{}: fill·probe (({} configs x {} fills + config default+cache_truncated x the TC fills = {} (config, fill) pairs) x {} advances x 16 flags), fill·probe·probe ({} configs x {} fills x {} advances x 16 flags x {} advances x 16 flags), fill·cross-probe ({} configs x {} fills in all 8 request forms x the other forms, and the form itself for the 4 pass-through forms, x {} advances x 16 flags), config-limits (zero-requested and huge-requested, see menus.config_limits), request-representation (default config, a.ex/A, 3 answers x 16 x 16 flags x 8 mode pairs x 2 advances), request-construction ({} transports x ({} constructions x {} answers) fills x {} constructions x {} advances), one-entry-eviction (768 histories of 82 requests){}",
+                if quick { "quick" } else { "thorough" }, cfgs1.len(), fills1.len(), n_items1, adv1.len(), cfgs2.len(), fills2.len(), adv2a.len(), adv2.len(), cfgs3.len(), fills3.len(), adv3.len(), N_STYLE, cons8.len(), kinds8.len(), cons8.len(), adv8.len(),
                 if quick { "" } else { ", fill·fill'·probe·probe (default config, reduced menus, see menus.shape4)" }),
             "menus": {
                 "questions_fill": ["a.ex/A", "b.ex/A", "a.ex/RRSIG"],
@@ -1701,6 +2010,17 @@ fn main() {
                 "answers_cross_probe": kinds3.iter().map(|k| KINDS[*k as usize]).collect::<Vec<_>>(),
                 "config_limits": s5.iter().map(|(c, k, a)| json!({"config": CFGS[*c].name, "questions": ["a.ex/A", "a.ex/RRSIG"], "flags": 16, "answers": k.iter().map(|k| KINDS[*k as usize]).collect::<Vec<_>>(), "probe_advances_s": a, "probe_flags": 16})).collect::<Vec<_>>(),
                 "request_modes": ["flags in the message given to RequestMessage::new", "flags via header_mut()", "flags via header_mut() + set_udp_payload_size + add_opt(Padding)"],
+                "request_construction": {
+                    "base_message_additional_section": ADDS[..].iter().enumerate().filter(|(i, _)| adds8.contains(&(*i as u8))).map(|(_, t)| *t).collect::<Vec<_>>(),
+                    "flag_routes": routes8.iter().map(|r| ROUTES[*r as usize]).collect::<Vec<_>>(),
+                    "flag_parameters": format!("{} RD/CD/AD combinations x DO (DO is no parameter of the no-setter route)", f3s8.len()),
+                    "constructions": cons8.len(),
+                    "upstream_transports": STYLES.to_vec(),
+                    "answers": kinds8.iter().map(|k| KINDS[*k as usize]).collect::<Vec<_>>(),
+                    "probe_advances_ms": adv8,
+                    "question": "a.ex/A", "config": "default",
+                    "oracle_flags": "RD/CD/AD/DO read by the harness's reader from the octets the transport sends, for the upstream's view of a fill and for a later request alike; all transports must send the same flags for one request; at most one OPT record",
+                },
                 "one_entry_eviction": {"fill": "a.ex/A x 16 flags x {pos-ttl10-aa, signed-pos20-rrsig5, transport-error}, then b.ex/A same flags pos-mixed", "rounds": ROUNDS, "probe_flags": 16},
                 "flags": "all 16 of RD x CD x AD x DO",
                 "upstream_answers": KINDS.to_vec(),
@@ -1718,6 +2038,11 @@ fn main() {
             "served_at_exactly_the_bound_accepted": g.exact_bound,
             "observation_nxdomain_without_soa_served_from_cache": g.nx_nosoa_served,
             "one_entry_eviction_observed": {"a_request_was_forwarded_although_its_entry_was_cached_and_fresh": g.evict_forward_seen, "a_request_was_still_served_from_cache": g.evict_hit_seen},
+            "request_construction_observed": {
+                "requests_whose_wire_flags_differ_from_the_construction_parameters": g.cons_eff_differs,
+                "requests_whose_base_OPT_said_DO_but_the_wire_does_not": g.cons_base_do_absent_on_wire,
+                "fills_where_upstream_saw_DO_in_an_OPT_behind_another_additional_record": g.cons_do_behind_record,
+            },
             "distinct_oracle_outcomes": outcomes.len() + 1,
             "oracle_outcomes": outcomes,
             "served_from_cache_by_source_answer_kind": served_by_kind,
@@ -1735,6 +2060,7 @@ fn main() {
             "menus as stated under coverage.menus; bound is on history shape, each shape enumerated completely",
             "a response served when elapsed time EQUALS the bound (TTL reaches 0) is accepted: the property says 'once ... has elapsed' and implementations differ at the instant itself; counted in served_at_exactly_the_bound_accepted",
             "TTL after ageing may be original minus floor or ceil of elapsed seconds",
+            "shape request-construction: the scripted upstream stands for a transport; what it 'receives' is produced the way dgram.rs (header_mut().set_id, optional set_udp_payload_size, to_message()) and stream.rs (header_mut().set_id, append_message()) produce the octets they send, with an ID different from the caller's; the flags of a request are what the harness's own reader finds in those octets",
             "message ID and OPT records of served responses are not compared (hop-by-hop); record order within a section is not compared",
             "AA may be cleared and RD may be the query's in served responses (documented by cache.rs); an upstream that itself sends RRSIG/AD to a query that did not ask (answer kind signed-raw) is passed through for queries with the same DO/AD state and that is accepted",
             "NXDOMAIN without SOA being cached (RFC 2308 section 5 SHOULD NOT, and the module comment) is outside the property text; it is counted as an observation only",
